@@ -84,6 +84,20 @@ def function_case(draw):
             'hist_bound': draw(st.sampled_from([30_000, 30_000, 1, 2, 3, 5]))}
 
 
+@st.composite
+def long_function_case(draw):
+    """66 000 - 90 000 rows in 1-4 mini-batches (a batch longer than 2^16 rows): the same statistics, the same exactness."""
+    n = draw(st.integers(66_000, 90_000))
+    cols = {}
+    for name in ('f1', 'f11'):
+        k = draw(st.integers(2, 6))
+        vals = draw(st.lists(st.sampled_from(POOL), min_size=k, max_size=k, unique=True))
+        cols[name] = {'vals': vals, 'seed': draw(st.integers(0, 2**32 - 1)), 'rare': draw(st.lists(st.integers(0, n - 1), max_size=4))}
+    cuts = sorted(set(draw(st.lists(st.integers(1, n - 1), max_size=3))))
+    return {'seq': {'n': n, 'cols': cols}, 'cuts': cuts, 'bound': draw(st.integers(0, 5)), 'missing': draw(st.sampled_from(MISSING_SETS)),
+            'hist_bound': 30_000}
+
+
 def batches_of(cols, n, cuts):
     names = list(cols)
     edges = [0] + [c for c in cuts if 0 < c < n] + [n]
@@ -421,7 +435,7 @@ def oracle_big_counts(case, rec):
 
 
 KNOWN_EMPTY = [False]
-ORACLES = {'C13/big-counts': oracle_big_counts, 'C13/long-history': oracle_long_history, 'C13/functions': oracle_functions, 'C13/pipeline': oracle_pipeline, 'C13/compositions': oracle_functions}
+ORACLES = {'C13/long-functions': oracle_functions, 'C13/big-counts': oracle_big_counts, 'C13/long-history': oracle_long_history, 'C13/functions': oracle_functions, 'C13/pipeline': oracle_pipeline, 'C13/compositions': oracle_functions}
 for _k in ('coverage', 'cardinality', 'histogram', 'histogram-split', 'rare'):
     ORACLES['C13/' + _k] = oracle_functions
 for _k in ('annotation', 'repetitions', 'rare-report', 'rare-report-empty'):
@@ -449,6 +463,7 @@ def run(ctx):
     ctx.extra['exhaustive_scope'] = f'every composition of {6 * len(res)} row sequences of 2-9 rows: {tot} (sequence, composition) pairs'
     drive(ctx, [
         Clause('C13/functions', function_case, oracle_functions, quick=500, thorough=100000, quick_shards=8),
+        Clause('C13/long-functions', long_function_case, oracle_functions, quick=2, thorough=32, quick_shards=2, thorough_shards=16),
         Clause('C13/long-history', long_history_case, oracle_long_history, quick=2, thorough=32, quick_shards=2, thorough_shards=16),
         Clause('C13/pipeline', pipeline_case, oracle_pipeline, quick=64, thorough=4000, quick_shards=16),
         Clause('C13/big-counts', big_counts_case, oracle_big_counts, quick=1, thorough=12, quick_shards=1, thorough_shards=12),
